@@ -44,7 +44,8 @@ def build(tier, seed):
         c.search_fn = c19.search
         return c
     _walk.__name__ = "get_page_tree_walk"
-    tasks = [a_task(PROP, _walk), Task(f"{PROP}.S.sites", PROP, "file-system call sites", lambda: _replay_if_refuted(confine.obligations(PROP))),
+    tasks = [Task(f"{PROP}.S.save_graphs", PROP, "Documentation.__init__", lambda: __import__("contracts.plumbing", fromlist=["x"]).graphs_saved_only_into_graph_dir(PROP, lambda: __import__("bounded.c19", fromlist=["x"]).search())),
+             a_task(PROP, _walk), Task(f"{PROP}.S.sites", PROP, "file-system call sites", lambda: _replay_if_refuted(confine.obligations(PROP))),
              Task(f"{PROP}.S.outfile", PROP, "outfile properties", lambda: confine.outfile_obligations(PROP) + confine.glob_targets_are_owned(PROP)),
              Task(f"{PROP}.S.refusal", PROP, "refusal", lambda: confine.refusal_obligations(PROP)), bounded_task()]
     meta = {
